@@ -225,6 +225,10 @@ func (s *treeScript) action(allowCreate bool) {
 	t := s.t()
 	g := s.g
 	r := uniform(t, 0, 19, "act")
+	if g.cfg.Journal && chance(t, 35, "jact") {
+		journalSnippet(t, s.a)
+		return
+	}
 	switch {
 	case r < 5:
 		s.sstore()
@@ -376,14 +380,38 @@ func GenTreeScenario(t *rapid.T, cfg TreeCfg) *Scenario {
 	return sc
 }
 
-// journalSnippet emits a well-formed key registration + value journal for a
-// small-integer slot (used by C10/C12 style scripts).
+// journalKey describes the fixed family of value keys the scripted contracts use.
+type journalKey struct {
+	Slot, Offset, Size, TypeID uint64
+	Name                       string
+}
+
+var journalKeys = func() []journalKey {
+	var out []journalKey
+	for slot := uint64(0); slot < 3; slot++ {
+		for _, os := range [][2]uint64{{0, 32}, {0, 4}, {4, 16}, {28, 4}} {
+			out = append(out, journalKey{Slot: slot, Offset: os[0], Size: os[1], TypeID: 0x1000 + slot*0x100 + os[0]*4 + os[1]%32,
+				Name: string([]byte{'v', byte('0' + slot), '_', byte('a' + os[0]), byte('a' + os[1]%32)})})
+		}
+	}
+	return out
+}()
+
+// journalSnippet emits (optionally) a store to a slot, a well-formed key
+// registration and a value journal for one key of the family.
 func journalSnippet(t *rapid.T, a *Asm) {
-	slot := uint64(uniform(t, 0, 3, "jslot"))
-	name := []string{"a", "b", "c", "d"}[slot]
-	typeID := uint64(0x1000 + slot)
-	emitRegisterValueVar(a, name, slot, 0, typeID)
-	emitJournalValue(a, slot, 0, 32, typeID)
+	k := journalKeys[uniform(t, 0, len(journalKeys)-1, "jkey")]
+	if chance(t, 70, "jstore") {
+		a.Push(genWord(t, "jval")).Push(k.Slot).Op(SSTORE)
+	}
+	emitRegisterValueVar(a, k.Name, k.Slot, k.Offset, k.TypeID)
+	n := 1
+	if chance(t, 25, "jtwice") {
+		n = 2 // immediate repeat of an equal value
+	}
+	for i := 0; i < n; i++ {
+		emitJournalValue(a, k.Slot, k.Offset, k.Size, k.TypeID)
+	}
 }
 
 // emitRegisterValueVar: VSVJNAL(stateVarNamePtr, slot, offset, typeId) - operands popped in this order.
